@@ -49,11 +49,13 @@ CHECKS = {
               "accepted File Data PDU turns the file into write_at old offset data (zero fill); pre-Metadata data is never written; "
               "Metadata creates/truncates; deletion only on cancel+disposition+incomplete. Per-call theorems that compose over any history.",
               "6/C05"),
-    "C06": _c("Coq proof of the NAK construction lemmas (partial: history-level tracker invariant not proved) + correspondence + interval-set oracle",
-              "PARTIAL proof (props/C06.v with C18): NAK splitting requests exactly metadata-marker + tracked ranges in order, every "
-              "PDU within max_packet_len, scope (0, EOF size); gap detection / removal step lemmas; nothing missing => no NAK. Not "
-              "proved: the invariant 'tracker = extent minus stored' over all arrival orders (evaluated by the oracle on every explored history).",
-              "6/C06"),
+    "C06": _c("Coq proof: NAK construction lemmas + history-level tracker invariant by induction over the arrival history + correspondence + interval-set oracle",
+              "Proof (props/C06.v, C06b.v with C18): NAK splitting requests exactly metadata-marker + tracked ranges in order, every "
+              "PDU within max_packet_len, scope (0, EOF size); gap detection / removal step lemmas; nothing missing => no NAK. "
+              "History level (C06b): for EVERY arrival order and duplication of the tiles of a file (fixed segment length) the tracker "
+              "denotes exactly the bytes below the highest offset received that were not received, stays well-formed and never raises. "
+              "Not proved: the same for arbitrarily overlapping segments (false: known finding F9) and across the EOF/deferred phase "
+              "(evaluated by the oracle on every explored history).", "6/C06"),
     "C07": _c("Coq proof by induction over the tiles of the file (unbounded: all contents, sizes, configurations) + correspondence + stream oracle",
               "Proof (props/C07.v): for every file and configuration with effective segment length >= 1 the calls of an accepted put "
               "emit exactly [Metadata]; one File Data PDU per call tiling [0,size) ascending; [EOF(size, checksum)], all with one "
